@@ -12,6 +12,12 @@ def _c(text, ref):
 
 
 CLAIMS = {
+    "C03": _c("Bounded symbolic model checking of the real asynchronous executor on a deterministic event loop (vf.detloop): a "
+              "symbolic bit per resolver position chooses value vs awaitable (also list items, is_type_of / resolve_type results and "
+              "an async-generator-backed list), and the completion order of the pending awaitables is chosen by symbolic scheduler "
+              "decisions that the solver forks. Assertions: data and the set of nulled positions equal those of synchronous "
+              "execution, the response is well formed, nothing started by the execution is left pending, and top-level mutation "
+              "fields never start while anything started by an earlier one is still in flight.", "DESIGN.md section 7, C03"),
     "C02": _c("Bounded symbolic model checking of the real execute_sync against a direct transcription of the specification's "
               "execution algorithm (CollectFields, ExecuteSelectionSet, ExecuteField, CoerceArgumentValues, CompleteValue with "
               "non-null propagation, ResolveAbstractType), both run on the same symbolic inputs inside one path: request templates "
